@@ -19,6 +19,7 @@ import (
 	"math"
 	"math/big"
 	"reflect"
+	"strconv"
 	"time"
 
 	"github.com/google/uuid"
@@ -322,7 +323,14 @@ func (dec *Decoder) LastReferenceIndex() int {
 
 // ReadReference to p.
 func (dec *Decoder) ReadReference(p interface{}) {
-	o := dec.refer.Read(dec.ReadInt())
+	i := dec.ReadInt()
+	if i < 0 || i >= len(dec.refer.ref) {
+		if dec.Error == nil {
+			dec.Error = DecodeError("hprose/io: invalid reference index " + strconv.Itoa(i))
+		}
+		return
+	}
+	o := dec.refer.Read(i)
 	src := reflect.TypeOf(o)
 	dest := reflect.TypeOf(p).Elem()
 	if conv := GetConverter(src, dest); conv != nil {
